@@ -7,6 +7,8 @@ import shapes as S
 import knotops as KO
 
 PID = 'C10'
+FLOAT_KINDS = {'xform'}      # float-mode companion (core.float_companion)
+FLOAT_TOL = 1e-8
 STATS = G.STATS
 PARTIAL = [
     "cos / sin of the angle are passed to the model as the doubles Python computes (no use of c^2 + s^2 = 1 is made; the theorem holds for any c, s)",
